@@ -63,8 +63,13 @@ class SlotType(BitsInterface):
     @staticmethod
     def from_bits(bits: bitarray) -> "SlotType":
         assert len(bits) == 20, "SlotType must be 20 bits"
-        return SlotType(
+        slot_type: SlotType = SlotType(
             colour_code=ba2int(bits[:4]),
             data_type=ba2int(bits[4:8]),
             parity=ba2int(bits[8:]),
         )
+        if ba2int(bits[8:]) > 0:
+            # reserved data types 13-15 are folded to DataTypes.Reserved (12) by the constructor,
+            # parity must be judged on the received word, not on the folded one
+            slot_type.fec_parity_ok = Golay2087.check(bits)
+        return slot_type
